@@ -1,10 +1,7 @@
 //! zkverif — property-based testing / fuzzing harness for libzkchannels-crypto.
 //!   zkverif <ID> quick|thorough
 //!   zkverif replay <path>
-#[macro_use]
-mod engine;
-mod model;
-mod props;
+use zkverif::{engine, props};
 
 use engine::{Ctx, Fail, Known, Tier};
 
